@@ -21,7 +21,7 @@ import (
 
 type c20 struct{}
 
-func init() { core.Register(c20{}) }
+func init()            { core.Register(c20{}) }
 func (c20) ID() string { return "C20" }
 
 type c20Case struct {
